@@ -265,24 +265,24 @@ struct Runner {
         W(S->clear()); RS_.clear();
       } else if (op == "erase") {
         long i = tk.n(); W(it = S->erase(S->cbegin() + i)); ret = it - S->begin();
-        sret = RS_.erase(RS_.begin() + i) - RS_.begin();
+        { auto rit = RS_.erase(RS_.begin() + i); sret = rit - RS_.begin(); }
       } else if (op == "eraser") {
         long i = tk.n(); long j = tk.n(); W(it = S->erase(S->cbegin() + i, S->cbegin() + j)); ret = it - S->begin();
-        sret = RS_.erase(RS_.begin() + i, RS_.begin() + j) - RS_.begin();
+        { auto rit = RS_.erase(RS_.begin() + i, RS_.begin() + j); sret = rit - RS_.begin(); }
       } else if (op == "insert") {
         long i = tk.n(); int t = tk.n(); { L tmp(t); W(it = S->insert(S->cbegin() + i, tmp)); } ret = it - S->begin();
-        { R r(t); sret = RS_.insert(RS_.begin() + i, r) - RS_.begin(); }
+        { R r(t); auto rit = RS_.insert(RS_.begin() + i, r); sret = rit - RS_.begin(); }
       } else if (op == "insertm") {
         long i = tk.n(); int t = tk.n(); { L tmp(t); W(it = S->insert(S->cbegin() + i, std::move(tmp))); } ret = it - S->begin();
-        { R r(t); sret = RS_.insert(RS_.begin() + i, std::move(r)) - RS_.begin(); }
+        { R r(t); auto rit = RS_.insert(RS_.begin() + i, std::move(r)); sret = rit - RS_.begin(); }
       } else if (op == "insertn") {
         long i = tk.n(); long n = tk.n(); int t = tk.n();
         { L tmp(t); W(it = S->insert(S->cbegin() + i, static_cast<size_t>(n), tmp)); } ret = it - S->begin();
-        { R r(t); sret = RS_.insert(RS_.begin() + i, static_cast<size_t>(n), r) - RS_.begin(); }
+        { R r(t); auto rit = RS_.insert(RS_.begin() + i, static_cast<size_t>(n), r); sret = rit - RS_.begin(); }
       } else if (op == "insertr") {
         long i = tk.n(); auto tags = tk.list();
         { Src<L> src(tags); W(it = S->insert(S->cbegin() + i, src.begin(), src.end())); } ret = it - S->begin();
-        { auto r = rlist(tags); sret = RS_.insert(RS_.begin() + i, r.begin(), r.end()) - RS_.begin(); }
+        { auto r = rlist(tags); auto rit = RS_.insert(RS_.begin() + i, r.begin(), r.end()); sret = rit - RS_.begin(); }
       } else if (op == "assignn") {
         long n = tk.n(); int t = tk.n(); { L tmp(t); W(S->assign(static_cast<size_t>(n), tmp)); } RS_.assign(static_cast<size_t>(n), R(t));
       } else if (op == "assignr") {
